@@ -64,6 +64,15 @@ type Execution interface {
 	AtEnd(obs []string) (endState string, f []Finding)
 }
 
+// Poisoner is implemented by executions that can tell that process-wide state
+// outside the harness's control was changed for good (e.g. a package-level
+// variable of the code under test): later executions in this process would
+// not start from the same state, so the exploration stops, and the witness is
+// to be confirmed by replaying it in fresh processes.
+type Poisoner interface {
+	Poisoned() bool
+}
+
 // Harness creates executions.
 type Harness interface {
 	Name() string
@@ -91,6 +100,7 @@ type Trace struct {
 	EndState    string
 	Obs         []string
 	PointHash   uint64 // digest of the point sequence
+	Poisoned    bool
 	// per point, for branching
 	nopts  []uint8
 	cost   []uint8  // preemptions before the point
@@ -223,6 +233,9 @@ func Execute(h Harness, prefix []int, wantHash uint64) (*Trace, error) {
 	end, fs := ex.AtEnd(obs)
 	tr.EndState = end
 	tr.Findings = append(tr.Findings, fs...)
+	if p, ok := ex.(Poisoner); ok {
+		tr.Poisoned = p.Poisoned()
+	}
 	return tr, nil
 }
 
@@ -241,6 +254,10 @@ type Violation struct {
 	Schedules   int    `json:"schedules"` // schedules in which the key was seen
 	Preemptions int    `json:"preemptions"`
 	Choices     []int  `json:"choices"`
+	// Confirmed: the witness was replayed twice in this process with identical
+	// observations. False only for witnesses of a poisoned execution, which
+	// the caller must confirm in fresh processes.
+	Confirmed bool `json:"confirmed"`
 }
 
 // Report summarises an exploration.
@@ -255,6 +272,7 @@ type Report struct {
 	MaxPreemptions    int            `json:"max_preemptions"`
 	DistinctEndStates int            `json:"distinct_end_states"`
 	Exhaustive        bool           `json:"exhaustive"`
+	Poisoned          bool           `json:"poisoned"` // stopped early: process-wide state was changed for good
 	Violations        []Violation    `json:"violations"`
 	EndStates         map[string]int `json:"-"`
 }
@@ -321,14 +339,21 @@ func Explore(h Harness, opt Options) (*Report, error) {
 				v.Schedules++
 				if written[f.Key] < opt.PerKey {
 					written[f.Key]++
-					path, err := confirmAndWrite(h, tr, f, opt.ReplayDir, written[f.Key])
+					path, err := confirmAndWrite(h, tr, f, opt.ReplayDir, written[f.Key], !tr.Poisoned)
 					if err != nil {
 						return rep, err
 					}
 					if v.Replay == "" {
 						v.Replay = path
+						v.Confirmed = !tr.Poisoned
 					}
 				}
+			}
+			if tr.Poisoned {
+				rep.Poisoned = true
+				rep.Exhaustive = false
+				queues = nil
+				break
 			}
 			// Branch on every point after the prefix.
 			for i := len(prefix); i < tr.Points; i++ {
@@ -371,11 +396,15 @@ type ReplayFile struct {
 	Choices   []int    `json:"choices"`
 	Finding   Finding  `json:"finding"`
 	Signature string   `json:"signature"`
+	// FreshProcess: the recorded execution changed process-wide state; the
+	// signature is only meaningful relative to a fresh process, and
+	// confirmation compares two fresh-process replays with each other.
+	FreshProcess bool `json:"fresh_process,omitempty"`
 }
 
-func confirmAndWrite(h Harness, tr *Trace, f Finding, dir string, seq int) (string, error) {
+func confirmAndWrite(h Harness, tr *Trace, f Finding, dir string, seq int, confirm bool) (string, error) {
 	sig := tr.Signature()
-	for i := 0; i < 2; i++ {
+	for i := 0; i < 2 && confirm; i++ {
 		again, err := Execute(h, tr.Choices, 0)
 		if err != nil {
 			return "", fmt.Errorf("%s: replay of %v failed: %w", h.Name(), tr.Choices, err)
@@ -390,7 +419,7 @@ func confirmAndWrite(h Harness, tr *Trace, f Finding, dir string, seq int) (stri
 	if err := os.MkdirAll(dir, 0o755); err != nil {
 		return "", err
 	}
-	rf := ReplayFile{Property: "C12", Harness: h.Name(), Threads: h.Threads(), Choices: tr.Choices, Finding: f, Signature: sig}
+	rf := ReplayFile{Property: "C12", Harness: h.Name(), Threads: h.Threads(), Choices: tr.Choices, Finding: f, Signature: sig, FreshProcess: !confirm}
 	b, _ := json.MarshalIndent(rf, "", " ")
 	name := fmt.Sprintf("%s-%016x-%d.json", sanitize(h.Name()), mix(14695981039346656037, f.Key), seq)
 	path := filepath.Join(dir, name)
@@ -434,6 +463,9 @@ func Replay(h Harness, rf *ReplayFile) (tr *Trace, reproduced bool, err error) {
 		if f.Key == rf.Finding.Key {
 			reproduced = true
 		}
+	}
+	if rf.FreshProcess {
+		return tr, reproduced, nil
 	}
 	return tr, reproduced && tr.Signature() == rf.Signature, nil
 }
